@@ -106,7 +106,7 @@ func c20copyFilters(in []arvados.Filter) []arvados.Filter {
 	return out
 }
 
-const c20HardCallLimit = 120
+const c20HardCallLimit = 450
 
 const (
 	c20FaultError      = "error"
@@ -118,8 +118,11 @@ const (
 type c20call struct {
 	opts     arvados.ListOptions
 	set      map[string]bool // reference reading of the filters received (nil: no uuid filter)
-	returned []string
-	fault    string // fault delivered at this call, if any
+	returned []string        // uuids as visible to the caller ("" when select hid them)
+	matched  int             // number of items in the answer
+	fault    string          // fault delivered at this call, if any
+
+	selectApplied bool // the answer was reduced to the selected fields
 }
 
 type c20backend struct {
@@ -132,6 +135,10 @@ type c20backend struct {
 	foreverAt int // >= 0: every call from this index on is a no-progress answer
 	errCode   int
 	everAsked map[string]bool // all uuids this backend was ever asked for (for the "repeat" fault)
+	// honourSelect: answer the way the API does when the request carries a
+	// non-empty select list, i.e. return only the selected fields (zero values
+	// for all others, including an empty uuid when "uuid" is not selected)
+	honourSelect bool
 
 	mu    sync.Mutex
 	calls []c20call
@@ -139,7 +146,7 @@ type c20backend struct {
 
 // list answers one call. It is a pure function of the filters received, the
 // call index and the pre-drawn plan.
-func (b *c20backend) list(opts arvados.ListOptions) ([]string, error) {
+func (b *c20backend) list(opts arvados.ListOptions) ([]c20row, error) {
 	b.mu.Lock()
 	defer b.mu.Unlock()
 	idx := len(b.calls)
@@ -221,9 +228,46 @@ func (b *c20backend) list(opts arvados.ListOptions) ([]string, error) {
 		}
 		out = append(out, matching[:n]...)
 	}
-	call.returned = append([]string(nil), out...)
+	// what the caller gets to see of each item
+	showUUID, showTag, showTime := true, true, true
+	if b.honourSelect && len(opts.Select) > 0 {
+		showUUID, showTag, showTime = false, false, false
+		for _, f := range opts.Select {
+			switch f {
+			case "uuid":
+				showUUID = true
+			case "modified_by_client_uuid":
+				showTag = true
+			case "modified_at":
+				showTime = true
+			}
+		}
+		call.selectApplied = true
+	}
+	var rows []c20row
+	for _, u := range out {
+		var r c20row
+		if showUUID {
+			r.uuid = u
+		}
+		if showTag {
+			r.tag = b.tag()
+		}
+		if showTime {
+			r.mtime = c20mtime(u)
+		}
+		rows = append(rows, r)
+		call.returned = append(call.returned, r.uuid)
+	}
+	call.matched = len(out)
 	b.calls = append(b.calls, call)
-	return out, err
+	return rows, err
+}
+
+// c20row is one item as the backend hands it out (after applying select).
+type c20row struct {
+	uuid, tag string
+	mtime     time.Time
 }
 
 func (b *c20backend) tag() string { return "from:" + b.id }
@@ -245,7 +289,7 @@ func (b *c20backend) CollectionList(ctx context.Context, opts arvados.ListOption
 	}
 	var r arvados.CollectionList
 	for _, u := range us {
-		r.Items = append(r.Items, arvados.Collection{UUID: u, ModifiedByClientUUID: b.tag(), ModifiedAt: c20mtime(u)})
+		r.Items = append(r.Items, arvados.Collection{UUID: u.uuid, ModifiedByClientUUID: u.tag, ModifiedAt: u.mtime})
 	}
 	return r, nil
 }
@@ -257,7 +301,7 @@ func (b *c20backend) ContainerList(ctx context.Context, opts arvados.ListOptions
 	}
 	var r arvados.ContainerList
 	for _, u := range us {
-		r.Items = append(r.Items, arvados.Container{UUID: u, ModifiedByClientUUID: b.tag(), ModifiedAt: c20mtime(u)})
+		r.Items = append(r.Items, arvados.Container{UUID: u.uuid, ModifiedByClientUUID: u.tag, ModifiedAt: u.mtime})
 	}
 	return r, nil
 }
@@ -269,7 +313,7 @@ func (b *c20backend) ContainerRequestList(ctx context.Context, opts arvados.List
 	}
 	var r arvados.ContainerRequestList
 	for _, u := range us {
-		r.Items = append(r.Items, arvados.ContainerRequest{UUID: u, ModifiedByClientUUID: b.tag(), ModifiedAt: c20mtime(u)})
+		r.Items = append(r.Items, arvados.ContainerRequest{UUID: u.uuid, ModifiedByClientUUID: u.tag, ModifiedAt: u.mtime})
 	}
 	return r, nil
 }
@@ -281,7 +325,7 @@ func (b *c20backend) GroupList(ctx context.Context, opts arvados.ListOptions) (a
 	}
 	var r arvados.GroupList
 	for _, u := range us {
-		r.Items = append(r.Items, arvados.Group{UUID: u, ModifiedByClientUUID: b.tag(), ModifiedAt: c20mtime(u)})
+		r.Items = append(r.Items, arvados.Group{UUID: u.uuid, ModifiedByClientUUID: u.tag, ModifiedAt: u.mtime})
 	}
 	return r, nil
 }
@@ -293,7 +337,7 @@ func (b *c20backend) SpecimenList(ctx context.Context, opts arvados.ListOptions)
 	}
 	var r arvados.SpecimenList
 	for _, u := range us {
-		r.Items = append(r.Items, arvados.Specimen{UUID: u, ModifiedByClientUUID: b.tag(), ModifiedAt: c20mtime(u)})
+		r.Items = append(r.Items, arvados.Specimen{UUID: u.uuid, ModifiedByClientUUID: u.tag, ModifiedAt: u.mtime})
 	}
 	return r, nil
 }
@@ -352,6 +396,41 @@ func c20describeFilters(fs []arvados.Filter) string {
 	return "[" + strings.Join(parts, ", ") + "]"
 }
 
+// c20compactFilters is c20describeFilters for call logs: long uuid lists are
+// abbreviated to their length, first and last element and a checksum (the
+// full request is printed once, and a backend's answer names the uuids).
+func c20compactFilters(fs []arvados.Filter) string {
+	var parts []string
+	for _, f := range fs {
+		l, ok := f.Operand.([]string)
+		if li, isI := f.Operand.([]interface{}); isI && len(li) > 8 {
+			for _, v := range li {
+				l = append(l, fmt.Sprintf("%v", v))
+			}
+			ok = true
+		}
+		if ok && len(l) > 8 {
+			sorted := append([]string(nil), l...)
+			sort.Strings(sorted)
+			parts = append(parts, fmt.Sprintf("[%q,%q,<%d uuids %s..%s #%x>]", f.Attr, f.Operator, len(l), sorted[0], sorted[len(sorted)-1], stats.FP(sorted)&0xffffff))
+			continue
+		}
+		parts = append(parts, fmt.Sprintf("[%q,%q,%#v]", f.Attr, f.Operator, f.Operand))
+	}
+	return "[" + strings.Join(parts, ", ") + "]"
+}
+
+func c20has(list []string, x string) bool {
+	for _, s := range list {
+		if s == x {
+			return true
+		}
+	}
+	return false
+}
+
+var c20selects = [][]string{{"uuid"}, {"owner_uuid"}, {"name", "modified_by_user_uuid"}, {"uuid", "name"}, {}, {"name", "uuid"}, {"modified_by_client_uuid"}, {"modified_at", "uuid", "modified_by_client_uuid"}}
+
 func TestVerifC20ListByUUID(t *testing.T) {
 	defer stats.Flush()
 	rapid.Check(t, func(t *rapid.T) {
@@ -364,6 +443,15 @@ func TestVerifC20ListByUUID(t *testing.T) {
 		unknownID := allIDs[1+nrem]
 		known := append([]string{localID}, remoteIDs...)
 
+		// A small share of the cases has one cluster holding 65-200 of the
+		// requested objects and paging them out one or two at a time, so that
+		// one backend has to be asked for more than 64 / 100 / 128 pages.
+		bigID, bigN := "", 0
+		if k := rapid.IntRange(0, 79).Draw(t, "bigSet"); k == 41 || k == 57 {
+			bigID = known[rapid.IntRange(0, len(known)-1).Draw(t, "bigCluster")]
+			bigN = rapid.SampledFrom([]int{65, 66, 70, 90, 100, 101, 102, 110, 127, 128, 129, 130, 131, 150, 180, 200}).Draw(t, "bigN")
+		}
+
 		// universe
 		mk := func(id string, n int) string { return fmt.Sprintf("%s-%s-%015d", id, infix, n) }
 		existsAt := map[string]map[string]bool{} // backend id -> uuid -> true (home objects only)
@@ -371,6 +459,11 @@ func TestVerifC20ListByUUID(t *testing.T) {
 		for _, id := range known {
 			existsAt[id] = map[string]bool{}
 			ne := rapid.IntRange(0, 6).Draw(t, "nexist-"+id)
+			if id == bigID {
+				ne = bigN
+			} else if bigID == localID && id == remoteIDs[0] && ne == 0 {
+				ne = 1 // a big local set is only interesting in a federated query
+			}
 			for i := 0; i < ne; i++ {
 				u := mk(id, i)
 				existsAt[id][u] = true
@@ -417,7 +510,16 @@ func TestVerifC20ListByUUID(t *testing.T) {
 			for _, u := range b.existing {
 				b.prio[u] = rapid.IntRange(0, 100).Draw(t, "prio-"+id)
 			}
-			switch rapid.SampledFrom([]string{"random", "one", "random", "all", "random", "one"}).Draw(t, "paging-"+id) {
+			b.honourSelect = rapid.IntRange(0, 9).Draw(t, "honourSelect-"+id) < 7
+			paging := rapid.SampledFrom([]string{"random", "one", "random", "all", "random", "one"}).Draw(t, "paging-"+id)
+			if id == bigID {
+				paging = rapid.SampledFrom([]string{"one", "one", "one", "two", "one-or-two"}).Draw(t, "bigPaging")
+			}
+			switch paging {
+			case "two":
+				b.pageSizes = []int{2}
+			case "one-or-two":
+				b.pageSizes = rapid.SliceOfN(rapid.IntRange(1, 2), 2, 6).Draw(t, "pageSizes-"+id)
 			case "all":
 				b.pageSizes = []int{1000}
 			case "one":
@@ -438,6 +540,9 @@ func TestVerifC20ListByUUID(t *testing.T) {
 			return append([]string(nil), perm[:n]...)
 		}
 		shape := rapid.SampledFrom([]string{"multi", "multi", "with-unknown", "multi", "multi", "local-only", "multi", "multi", "one-remote", "multi", "multi", "multi", "multi", "multi", "multi", "all-malformed"}).Draw(t, "requestShape")
+		if bigID != "" {
+			shape = "multi"
+		}
 		var base []string
 		byHome := func(id string) []string {
 			var out []string
@@ -459,6 +564,11 @@ func TestVerifC20ListByUUID(t *testing.T) {
 			min := 1
 			if len(candidates) >= 4 {
 				min = len(candidates) / 2
+			}
+			if bigID != "" {
+				// (nearly) everything, so that the big cluster really is asked
+				// for 65+ objects
+				min = len(candidates) - rapid.IntRange(0, 2).Draw(t, "bigSlack")
 			}
 			base = pickSome("req", candidates, min)
 			if shape == "with-unknown" {
@@ -495,6 +605,9 @@ func TestVerifC20ListByUUID(t *testing.T) {
 			op, operand := asOperand("f0", base)
 			filters = append(filters, arvados.Filter{Attr: "uuid", Operator: op, Operand: operand})
 			nextra := rapid.SampledFrom([]int{0, 0, 0, 1, 1, 2}).Draw(t, "extraUUIDFilters")
+			if bigID != "" {
+				nextra = 0
+			}
 			for i := 0; i < nextra; i++ {
 				// a second/third uuid filter: superset, subset or overlap
 				label := fmt.Sprintf("f%d", i+1)
@@ -521,7 +634,7 @@ func TestVerifC20ListByUUID(t *testing.T) {
 		// options
 		opts := arvados.ListOptions{Count: "none", Limit: -1}
 		var perturb []string
-		if rapid.IntRange(0, 9).Draw(t, "perturbed") >= 7 {
+		if rapid.IntRange(0, 9).Draw(t, "perturbed") >= 7 && bigID == "" {
 			n := rapid.SampledFrom([]int{1, 1, 1, 2, 3}).Draw(t, "nperturb")
 			for i := 0; i < n; i++ {
 				p := rapid.SampledFrom([]string{"count", "limit", "offset", "order", "otherfilter", "otheroperator", "maxitems", "bypass", "forwarded", "select", "badoperand"}).Draw(t, "perturb")
@@ -567,8 +680,14 @@ func TestVerifC20ListByUUID(t *testing.T) {
 			}
 			filters = append(filters, f)
 		}
-		if has("select") {
-			opts.Select = rapid.SampledFrom([][]string{{"uuid"}, {"name"}, {"uuid", "name"}}).Draw(t, "select")
+		// select lists: as a perturbation, and on their own in a quarter of the
+		// otherwise unperturbed cases
+		if has("select") || rapid.IntRange(0, 3).Draw(t, "withSelect") == 0 {
+			opts.Select = append([]string{}, rapid.SampledFrom(c20selects).Draw(t, "select")...)
+		}
+		var origSelect []string // the caller's select list (nil: none given)
+		if opts.Select != nil {
+			origSelect = append([]string{}, opts.Select...)
 		}
 		if has("bypass") {
 			opts.BypassFederation = true
@@ -634,7 +753,11 @@ func TestVerifC20ListByUUID(t *testing.T) {
 
 		// fault plan (only where a backend will be asked for pages)
 		plannedFault := ""
-		if rapid.IntRange(0, 9).Draw(t, "withFault") < 4 {
+		faultShare := 4
+		if bigID != "" {
+			faultShare = 2
+		}
+		if rapid.IntRange(0, 9).Draw(t, "withFault") < faultShare {
 			// preferably a backend that the request involves
 			var pool []string
 			for _, id := range known {
@@ -649,6 +772,10 @@ func TestVerifC20ListByUUID(t *testing.T) {
 			b := backends[id]
 			plannedFault = rapid.SampledFrom([]string{c20FaultError, c20FaultNoProgress, c20FaultRepeat, c20FaultError, c20FaultNoProgress, c20FaultLyingEmpty, c20FaultRepeat}).Draw(t, "fault")
 			at := rapid.IntRange(0, 3).Draw(t, "faultAt")
+			if id == bigID {
+				// anywhere in the long sequence of pages
+				at = rapid.IntRange(0, len(byPrefix[id])).Draw(t, "bigFaultAt")
+			}
 			if n := len(byPrefix[id]); at > n {
 				at = n
 			}
@@ -697,6 +824,7 @@ func TestVerifC20ListByUUID(t *testing.T) {
 		total := 0
 		delivered := map[string]bool{}
 		multiPage := false
+		selectApplied := false
 		var callLog []string
 		for _, id := range known {
 			b := backends[id]
@@ -710,17 +838,20 @@ func TestVerifC20ListByUUID(t *testing.T) {
 				if c.fault != "" {
 					delivered[c.fault] = true
 				}
-				callLog = append(callLog, fmt.Sprintf("%s#%d filters=%s limit=%d -> %v fault=%q", id, i, c20describeFilters(c.opts.Filters), c.opts.Limit, c.returned, c.fault))
+				callLog = append(callLog, fmt.Sprintf("%s#%d filters=%s select=%v limit=%d -> %q fault=%q", id, i, c20compactFilters(c.opts.Filters), c.opts.Select, c.opts.Limit, c.returned, c.fault))
+				if c.selectApplied {
+					selectApplied = true
+				}
 			}
 			b.mu.Unlock()
 		}
 		describe := func() string {
 			var sb strings.Builder
 			fmt.Fprintf(&sb, "%s list, local=%s remotes=%v unknown=%s MaxItemsPerResponse=%d class=%s\n", kind, localID, remoteIDs, unknownID, maxItems, class)
-			fmt.Fprintf(&sb, "options: filters=%s count=%q limit=%d offset=%d order=%v select=%v bypass=%v forwardedFor=%q\n", c20describeFilters(origFilters), opts.Count, opts.Limit, opts.Offset, opts.Order, opts.Select, opts.BypassFederation, opts.ForwardedFor)
+			fmt.Fprintf(&sb, "options: filters=%s count=%q limit=%d offset=%d order=%v select=%#v bypass=%v forwardedFor=%q\n", c20describeFilters(origFilters), opts.Count, opts.Limit, opts.Offset, opts.Order, origSelect, opts.BypassFederation, opts.ForwardedFor)
 			for _, id := range known {
 				b := backends[id]
-				fmt.Fprintf(&sb, "backend %s: has %v pageSizes=%v faults=%v\n", id, b.existing, b.pageSizes, b.faults)
+				fmt.Fprintf(&sb, "backend %s: has %v pageSizes=%v faults=%v honourSelect=%v\n", id, b.existing, b.pageSizes, b.faults, b.honourSelect)
 			}
 			fmt.Fprintf(&sb, "requested (27-char, after intersecting the uuid filters): %v\n", r27)
 			fmt.Fprintf(&sb, "calls:\n  %s\n", strings.Join(callLog, "\n  "))
@@ -745,7 +876,11 @@ func TestVerifC20ListByUUID(t *testing.T) {
 				if seen[it.uuid] > 1 {
 					t.Fatalf("C20 violated: object %s returned %d times\n%s", it.uuid, seen[it.uuid], describe())
 				}
-				if it.tag != "from:"+it.uuid[:5] {
+				if it.tag == "" && selectApplied && origSelect != nil && !c20has(origSelect, "modified_by_client_uuid") {
+					// the backend honoured a select list that leaves out the field
+					// the harness tags items with; that each backend is only asked
+					// for its own uuids is checked through the call log
+				} else if it.tag != "from:"+it.uuid[:5] {
 					t.Fatalf("C20 violated: object %s was obtained %s, not from the cluster named by its prefix\n%s", it.uuid, it.tag, describe())
 				}
 			}
@@ -810,6 +945,34 @@ func TestVerifC20ListByUUID(t *testing.T) {
 		if delivered[c20FaultError] && res.err == nil {
 			t.Fatalf("C20 violated: a backend returned an error but the list request succeeded\n%s", describe())
 		}
+		if origSelect != nil {
+			labels = append(labels, fmt.Sprintf("select:%q", origSelect))
+			if !c20has(origSelect, "uuid") {
+				labels = append(labels, "select-without-uuid")
+			}
+			if selectApplied {
+				labels = append(labels, "select-honoured-by-a-backend")
+				if class == "federated" {
+					labels = append(labels, "select-honoured-in-federated-query")
+					if !c20has(origSelect, "uuid") {
+						labels = append(labels, "select-without-uuid-honoured-in-federated-query")
+					}
+				}
+			}
+		}
+		if bigID != "" {
+			labels = append(labels, "big:case", fmt.Sprintf("big:requested-from-one-cluster>=%d", len(byPrefix[bigID])/32*32))
+			if bigID == localID {
+				labels = append(labels, "big:cluster-is-local")
+			} else {
+				labels = append(labels, "big:cluster-is-remote")
+			}
+			for _, n := range []int{64, 100, 128} {
+				if ncalls[bigID] > n {
+					labels = append(labels, fmt.Sprintf("big:pages>%d", n))
+				}
+			}
+		}
 		switch class {
 		case "bypass", "no-uuid-filter", "local-only":
 			checkSingleLocalCall()
@@ -818,6 +981,9 @@ func TestVerifC20ListByUUID(t *testing.T) {
 			// outcome, but nothing that does not exist may be returned
 			if res.err == nil && !opts.BypassFederation {
 				for _, it := range res.items {
+					if len(it.uuid) != 27 {
+						continue // uuid not selected by the caller
+					}
 					if h, ok := existsAt[it.uuid[:5]]; !ok || !h[it.uuid] {
 						t.Fatalf("C20 violated: item %s returned but does not exist\n%s", it.uuid, describe())
 					}
@@ -870,6 +1036,12 @@ func TestVerifC20ListByUUID(t *testing.T) {
 				}
 				checkItemsAgainst(true)
 				labels = append(labels, "honest-exactly-once-checked")
+				if bigID != "" {
+					labels = append(labels, "big:honest-exactly-once-checked")
+				}
+				if selectApplied {
+					labels = append(labels, "select-honoured:honest-exactly-once-checked")
+				}
 			}
 		}
 
@@ -912,9 +1084,13 @@ func TestVerifC20ListByUUID(t *testing.T) {
 		case "unsplittable-multi", "federated-unknown-cluster":
 			nontrivial = true
 		}
-		stats.Case(stats.FP(kind, c20describeFilters(origFilters), opts.Count, opts.Limit, opts.Offset, opts.Order, maxItems, class, callLog), nontrivial, labels...)
+		stats.Case(stats.FP(kind, c20describeFilters(origFilters), opts.Count, opts.Limit, opts.Offset, opts.Order, fmt.Sprintf("%#v", origSelect), maxItems, class, callLog), nontrivial, labels...)
 		if stats.WantSample("class:" + class) {
-			stats.Sample("class:"+class, map[string]interface{}{"filters": c20describeFilters(origFilters), "maxItems": maxItems, "calls": callLog, "err": fmt.Sprint(res.err), "items": fmt.Sprint(res.items)})
+			sampleCalls := callLog
+			if len(sampleCalls) > 12 {
+				sampleCalls = append(append([]string(nil), callLog[:6]...), fmt.Sprintf("... %d more calls ...", len(callLog)-6))
+			}
+			stats.Sample("class:"+class, map[string]interface{}{"filters": c20compactFilters(origFilters), "select": origSelect, "maxItems": maxItems, "calls": sampleCalls, "err": fmt.Sprint(res.err), "nitems": len(res.items)})
 		}
 	})
 }
